@@ -63,6 +63,56 @@ def regenerate(exponent, ns):
     return np.array(knots), coefficients, float(err)
 
 
+# the multi-piece entry regenerated in the quick tier as well: the one with the smallest error level of the table (2.4e-7),
+# i.e. the entry on which an absolute slack in the knot search's stop test weighs most (~17 s; it runs in a worker process
+# next to the other stages)
+QUICK_MULTI = (1.5, 0.0, (11, 17))
+
+
+def regen_budget(tier):
+    if tier != "quick":
+        return list(range(len(DOCUMENTED)))
+    return ([i for i, (_, _, ns) in enumerate(DOCUMENTED) if len(ns) == 1 and max(ns) <= 11]
+            + [DOCUMENTED.index(QUICK_MULTI)])
+
+
+def _regen_task(args):
+    exponent, ns = args
+    try:
+        with warnings.catch_warnings():
+            warnings.simplefilter("ignore")
+            knots, coeffs, err = regenerate(exponent, ns)
+        return ("ok", np.asarray(knots, float), [np.asarray(c, float) for c in coeffs], float(err))
+    except Exception as ex:  # noqa: BLE001  (reported as "the documented generator fails to regenerate the entry")
+        return ("exc", repr(ex))
+
+
+class Regenerator:
+    """runs the documented generator for the budgeted entries in forked workers (longest first) while the other stages run;
+    `get(i)` waits for entry i.  Falls back to running inline if no worker pool can be had."""
+
+    def __init__(self, budget):
+        import multiprocessing
+        self.pool, self.res = None, {}
+        order = sorted(budget, key=lambda i: -(len(DOCUMENTED[i][2]) * 100 + max(DOCUMENTED[i][2])))
+        try:
+            self.pool = multiprocessing.get_context("fork").Pool(max(1, min(len(order), 4, os.cpu_count() or 1)))
+            for i in order:
+                self.res[i] = self.pool.apply_async(_regen_task, ((DOCUMENTED[i][0], DOCUMENTED[i][2]),))
+        except Exception:  # noqa: BLE001
+            self.pool, self.res = None, {}
+
+    def get(self, i):
+        if i in self.res:
+            return self.res[i].get()
+        return _regen_task((DOCUMENTED[i][0], DOCUMENTED[i][2]))
+
+    def close(self):
+        if self.pool is not None:
+            self.pool.terminate()
+            self.pool.join()
+
+
 def moment_quadrature(k, loc, scale):
     """∫₀¹ x^k φ(x; loc, scale) dx with break points around loc"""
     loc, scale = mp.mpf(loc), mp.mpf(scale)
@@ -83,7 +133,14 @@ def run(seed, tier, replay=None):
         rep.violate(what="the shipped table does not parse", error=repr(e), input=dict(file=path))
         return rep.result(rule="table unreadable")
     rows = list(table.items())
+    regen = Regenerator(regen_budget(tier) if sum(len(es) for _, es in rows) == len(DOCUMENTED) else [])
+    try:
+        return _run(rep, rng, drv, tier, table, rows, regen)
+    finally:
+        regen.close()
 
+
+def _run(rep, rng, drv, tier, table, rows, regen):
     # ---- (0) structure, evaluated directly on the file (the Lean theorem table_structure says the same of the translation)
     for key, entries in rows:
         ms = [float(e["min_scale"]) for e in entries]
@@ -230,23 +287,20 @@ def run(seed, tier, replay=None):
     if len(flat) != len(DOCUMENTED):
         rep.disagree(op="regenerate", note="the table has a different number of entries than the documented generator list")
     else:
-        budget = [i for i, (_, _, ns) in enumerate(DOCUMENTED) if len(ns) == 1 and max(ns) <= (11 if tier == "quick" else 99)]
-        if tier != "quick":
-            budget = list(range(len(DOCUMENTED)))
-        for i in budget:
+        for i in regen_budget(tier):
             exponent, min_scale, ns = DOCUMENTED[i]
             key, ei, e = flat[i]
+            rep.count("regenerated=%s" % ("single-piece" if len(ns) == 1 else "multi-piece(%d pieces)" % len(ns)))
+            rep.count("regenerated:max_error=1e%d" % int(np.floor(np.log10(float(e["max_error"])))))
             if float(key) != exponent or float(e["min_scale"]) != min_scale:
                 rep.violate(what="entry does not carry the documented exponent/min_scale", input=dict(index=i, exponent=key, min_scale=e["min_scale"]),
                             expected=[exponent, min_scale])
                 continue
-            try:
-                with warnings.catch_warnings():
-                    warnings.simplefilter("ignore")
-                    knots, coeffs, err = regenerate(exponent, ns)
-            except Exception as ex:
-                rep.violate(what="the documented generator fails to regenerate the entry", input=dict(exponent=key, entry=ei, ns=list(ns)), error=repr(ex))
+            out = regen.get(i)
+            if out[0] != "ok":
+                rep.violate(what="the documented generator fails to regenerate the entry", input=dict(exponent=key, entry=ei, ns=list(ns)), error=out[1])
                 continue
+            _, knots, coeffs, err = out
             rep.case(("regen", key, ei), sample=dict(op="regenerate", exponent=key, entry=ei, ns=list(ns), err=err, recorded=e["max_error"]))
             kn = np.array(e["knots"], float)
             me = float(e["max_error"])
@@ -269,8 +323,9 @@ def run(seed, tier, replay=None):
     return rep.result(
         rule="every entry of the table: structure; exact evaluation of every piece at its knots, float neighbours and random points "
              "(model vs file, and vs x^k at 40 digits); entry selection at both sides of every min_scale; partial moments vs mpmath "
-             "quadrature at scale-range ends and stratified locations in [-10,11]; regeneration of single-piece entries (quick) / all "
-             "(thorough). distinct = distinct (kind, entry, point).",
+             "quadrature at scale-range ends and stratified locations in [-10,11]; regeneration of the single-piece entries of degree "
+             "<= 11 and of the multi-piece entry with the smallest error level, exponent 1.5 / min_scale 0 / degrees (11,17) (quick) / "
+             "all 13 (thorough). distinct = distinct (kind, entry, point).",
         extra=dict(driver_lines=drv.lines, extra=dict(certified_pieces=cf.get("pieces"), expected_pieces=cf.get("expected"),
                                                       intervals=cf.get("intervals"))))
 
